@@ -318,6 +318,41 @@ fn main() {
             }
         }
     }
+    // ---- part (a), long texts: symbol counts around the powers of two a size threshold would sit at;
+    // gap patterns none / all / alternating / one gap at the start, in the middle, at the end, every
+    // ordered pair of them
+    {
+        let lens = tu_verif::enumerate::threshold_lengths(run.pick(8, 10));
+        run.bounds.insert("a_long_phase".into(), json!(format!("symbol counts {lens:?} x 2 symbol patterns x every ordered pair of 6 gap patterns x use_graphemes")));
+        let base_l = n_e + (ews.len() + ebs.len()) as u64;
+        for (k, n) in lens.iter().enumerate() {
+            if !run.unit(base_l + k as u64) {
+                continue;
+            }
+            for pat in [&["a"][..], &["a", "ä", "e\u{301}"][..]] {
+                let syms: Vec<&str> = (0..*n).map(|i| pat[i % pat.len()]).collect();
+                let with = |gap: &dyn Fn(usize) -> bool| -> String {
+                    let mut s = String::new();
+                    for (i, c) in syms.iter().enumerate() {
+                        s.push_str(c);
+                        if i + 1 < syms.len() && gap(i) {
+                            s.push(' ');
+                        }
+                    }
+                    s
+                };
+                let m = *n / 2;
+                let texts = [with(&|_| false), with(&|_| true), with(&|i| i % 2 == 0), with(&|i| i == 0), with(&|i| i == m), with(&|i| i + 2 == *n)];
+                for from in &texts {
+                    for to in &texts {
+                        for g in [false, true] {
+                            check_a(&mut run, from, to, g);
+                        }
+                    }
+                }
+            }
+        }
+    }
     // ---- part (b): the main alphabet, then the edge alphabet
     for (is, s) in bs.iter().enumerate().map(|(i, s)| (n_a + i as u64, s)).chain(ebs.iter().enumerate().map(|(i, s)| (n_e + (ews.len() + i) as u64, s))) {
         if !run.unit(is) {
